@@ -55,11 +55,24 @@ def simple_query_s():
 def strategy(tier):
     schema = st.fixed_dictionaries({"n_unique": st.booleans(), "t_vector": st.booleans(),
                                     "g_sortable": st.booleans()})
-    return st.fixed_dictionaries({
+    base = st.fixed_dictionaries({
         "hist": gen.history_s(max_txs=7, min_txs=2, max_docs=6, allow_cancel=True, del_queries=simple_query_s(),
                               schema_s=schema),
         "store": st.sampled_from(["ram", "file", "file_nommap"]),
     })
+
+    def wipe(case, at, on):
+        # "delete everything and optimize" somewhere in the history: the index is left with a segment that holds no
+        # document, and the transactions after it add, update and delete next to that segment
+        if not on:
+            return case
+        txs = list(case["hist"]["txs"])
+        at = at % len(txs)
+        tx = {"ops": [["delq", {"op": "every", "f": None}]], "end": "commit", "merge": True, "optimize": True,
+              "blocklimit": txs[at].get("blocklimit")}
+        later = [dict(t, merge=False, optimize=False) if t.get("end") == "commit" else t for t in txs[at:]]
+        return dict(case, hist=dict(case["hist"], txs=txs[:at] + [tx] + later))
+    return st.builds(wipe, base, st.integers(0, 6), st.sampled_from([False, False, True]))
 
 
 def _keys(s, docnums):
